@@ -171,3 +171,17 @@ def sw0_2() -> tuple[float, float]:
 
 
 SW = [sw0_2, sw1_2, sw2_2, sw3_2]
+
+
+# linear-network rate laws (simulator family); single-expression, translatable
+def lin_const(k: float) -> float:
+    return k
+
+
+def lin_ma(k: float, s: float) -> float:
+    return k * s
+
+
+def neg_sq1(a: float) -> float:
+    """always negative coefficient"""
+    return -(0.5 * a * a + 0.1)
